@@ -158,6 +158,12 @@ example : ∃ s, Reachable (Cfg.real 2) s ∧ s.pending = [3] ∧ s.mTruncated =
 
 example : (trySend (Cfg.real 1) (send (Cfg.real 1) init 7) 8).2 = .full 8 := by decide
 
+/-- DESIGN §8 F4, outside the statement ("while the receiver exists"): on a channel closed by a receiver teardown
+    `try_send` reports the closure without the item, so the waiting variants end in an error that does not carry
+    it. The code is modelled as it is; stream `batcher_blocking_c09` observes `err(noitem)` on both sides. -/
+example : (trySend (Cfg.real 2) ((dropReceiver init).getD init) 7).2 = .closed ∧
+    sendOrWait 100 .closed [(0, .closed)] = some .errNoItem := by decide
+
 example : sendOrWait 100 (.full 5) [(10, .full 5), (60, .ok)] = some .ok := by decide
 example : sendOrWait 100 (.full 5) [(10, .full 5), (120, .ok)] = some (.handedBack 5) := by decide
 
